@@ -596,8 +596,8 @@ fn ieee802154_seeds(cfg: Cfg, l: &Learned) -> Vec<Seed> {
     add(&mut v, "nhc-udp/dst-8bit".into(), lowpan(&mac, &inline64, &udp_p(4000, P_UDP_NHC, b"nhc form 1"), Comp::Udp(1, true)), true);
     add(&mut v, "nhc-udp/src-8bit".into(), lowpan(&mac, &inline64, &udp_p(0xf0b2, P_UDP, b"nhc form 2"), Comp::Udp(2, true)), true);
     add(&mut v, "nhc-udp/4bit-4bit".into(), lowpan(&mac, &inline64, &udp_p(0xf0b2, P_UDP_NHC, b"nhc form 3"), Comp::Udp(3, true)), true);
-    add(&mut v, "nhc-udp/ports-inline-checksum-elided".into(), lowpan(&mac, &inline64, &udp_p(4000, P_UDP, b"no csum"), Comp::Udp(0, false)), true);
-    add(&mut v, "nhc-udp/4bit-checksum-elided".into(), lowpan(&mac, &inline64, &udp_p(0xf0b2, P_UDP_NHC, b""), Comp::Udp(3, false)), true);
+    add(&mut v, "nhc-udp/ports-inline-checksum-elided".into(), lowpan(&mac, &inline64, &udp_p(4000, P_UDP, b"no csum"), Comp::Udp(0, false)), false); // elided checksum: dropped since the UDP/IPv6 zero-checksum fix
+    add(&mut v, "nhc-udp/4bit-checksum-elided".into(), lowpan(&mac, &inline64, &udp_p(0xf0b2, P_UDP_NHC, b""), Comp::Udp(3, false)), false); // elided checksum: dropped
     add(&mut v, "nhc-udp/closed-port".into(), lowpan(&mac, &inline64, &udp_p(4000, 9, b"closed"), Comp::Udp(0, true)), cfg.variant == 0);
     if cfg.v6_peers() {
         let d = udp(p6, i6, 53, l.dns_port, &dns_response(l.dns_txid, true, 0));
